@@ -438,6 +438,14 @@ class Check:
             if hy:
                 broken.append(("audit:hygiene", "\n".join(hy)))
                 proved = set()
+            if self.tier == "thorough":
+                # independent re-check of the compiled module (and everything it imports from this project)
+                with Lock("build.lock"):
+                    rc, out, err = run(["lake", "env", "leanchecker", "ZapVerif.Props." + prop], cwd=LEAN)
+                details["leanchecker"] = "ok" if rc == 0 else (out.decode() + err.decode())[-1500:]
+                if rc != 0:
+                    broken.append(("audit:leanchecker", details["leanchecker"]))
+                    proved = set()
         else:
             log(blog[-3000:])
             ft = failing_theorems(prop, blog)
@@ -554,6 +562,7 @@ class Check:
             "trusted_base": TRUSTED_BASE,
             "theorems": [n for n, _ in thms],
             "axioms": details.get("axioms", {}),
+            "leanchecker": details.get("leanchecker", "not run (thorough tier only)"),
             "gen_tables": {t: table_rows.get(t, 0) for t in self.gen_tables},
             "rule": self.rule,
             "samples": samples,
